@@ -22,6 +22,7 @@ RULE = ("Hypothesis: (configuration, piece). Configuration: 1-4 tracks, all 16 c
         "signature change, >= 2 tracks sounding simultaneously, unequal track lengths, non-default flags, velocity_bins > 1}. "
         "Distinct by case digest.")
 RULE = RULE + " Rounds e-g: signature changes spread over two owner tracks with A-B-A plans, 16/17/18/20 tracks, tokeniser objects that already tokenised and detokenised another piece."
+RULE = RULE + " Round i: pieces built in two steps (late notes through add_absolute_message after a view was read)."
 ASSUMPTIONS = ["velocity bin edges are read from the tokeniser object and compared as numbers",
                "time signature values may come back simplified (6/8 -> 3/4); only bar lengths are compared"]
 TIERS = {"quick": dict(shards=8, examples=700), "thorough": dict(size=2, shards=16, examples=15000)}
